@@ -16,7 +16,7 @@ EXTENDS Naturals, Sequences, FiniteSets, TLC, Json
 CONSTANTS Frames,          \* set of frame records
           MaxDepth, Pres, Leaves,
           DevIncludePlusOne,   \* as-built (open finding, pinned by a repository test): included lines are +1
-          DevColonNested,      \* as-built (open finding): a ::: directive whose body starts with a ::: fence is +1 inside
+          DevColonNested,      \* as-built before the fix: a ::: directive whose body starts with a ::: fence is +1 inside
           DevFirstLine         \* as-built (open finding): body text on the fence line gets the next line's number
 
 Paths == UNION {[1..n -> Frames] : n \in 0..MaxDepth}
@@ -37,9 +37,6 @@ WellFormedPath(p) ==
   /\ \A n \in 1..Len(p) : p[n].first => (n = Len(p) /\ IsDir(p[n]) /\ p[n].opt = "none" /\ p[n].blanks = 0 /\ p[n].skip = 0)
   /\ \A n \in 1..Len(p) : ~IsDir(p[n]) => (p[n].opt = "none" /\ p[n].nopt = 0 /\ p[n].blanks = 0 /\ ~p[n].first)
   /\ \A n \in 1..Len(p) : (p[n].opt = "none") = (p[n].nopt = 0)
-  (* a body that starts with a ':' line directly after a backtick fence / a ':key:' block is read as options: not a layout *)
-  /\ \A n \in 1..(Len(p) - 1) : (IsDir(p[n]) /\ p[n].blanks = 0 /\ p[n].skip = 0 /\ p[n + 1].w \in {"colon", "div"})
-                                  => (p[n].w = "colon" /\ p[n].opt = "none") \/ p[n].opt = "yaml"
 Init == /\ path \in {p \in Paths : WellFormedPath(p)} /\ pre \in Pres /\ leaf \in Leaves
         /\ (path # <<>> /\ path[Len(path)].first => leaf = "para")
         /\ k = 1 /\ base = 0 /\ row = pre /\ src = 0 /\ abs = pre + 1 /\ ssrc = 0 /\ marks = <<>>
